@@ -58,7 +58,15 @@ def new_run():
          "counting run and in the fault run)",
          "pandas and polars backends only; frames <= 6 rows x <= 7 columns",
          "a raising check under drop_invalid_rows=True that returns a frame "
-         "is not judged (nothing documented about it)"])
+         "is not judged (nothing documented about it)",
+         "not judged: pandera.errors.BackendNotFoundError for a non-dataframe "
+         "argument (the repository's tests accept it beside TypeError); the "
+         "deliberate IndexError of get_regex_columns when a regex column name "
+         "(string / tuple) does not fit the number of column levels (pinned "
+         "by tests/core/test_schema_components.py); polars under SCHEMA_ONLY "
+         "depth: a lazy coercion cast that fails when the plan is "
+         "materialised (docs/source/polars.md: coercion without collect); "
+         "sample= larger than the frame passed (caller's argument error)"])
 
 
 # ------------------------------------------------------------------ plumbing
@@ -197,9 +205,7 @@ K_PL_ADD_SELECT = "polars-add-missing-columns-final-select-of-absent-or-filtered
 K_PL_ABSENT = "polars-core-parsers-touch-absent-column"
 K_PL_DEFAULT_TYPE = "polars-default-fill-on-differently-typed-column"
 K_PD_DEFAULT_TYPE = "pandas-default-fill-on-differently-typed-column"
-K_PL_SCHEMA_ONLY = "polars-schema-only-coercion-failure-surfaces-at-collect"
 K_NONFRAME = "non-dataframe-argument-not-typeerror"
-K_REGEX_MI = "regex-column-on-multiindex-columns-raises-indexerror"
 K_MI_COLS = "pandas-multiindex-columns-with-scalar-schema-keys"
 K_UNHASHABLE = "unique-on-unhashable-cells"
 K_COL_DROP = "pandas-column-level-drop-invalid-rows-none-check-obj"
@@ -207,6 +213,8 @@ K_FRAME_COERCE_FC = "frame-dtype-coercion-failure-cases-reshape"
 K_JOINT_DUPIDX = "joint-unique-failure-cases-duplicate-or-null-index-labels"
 K_MI_SCHEMA = "multiindex-schema-coerce-on-plain-index"
 K_DROP_SAMPLE = "population-shrunk-by-validation-before-sample"
+K_UNIQUE_COLNAMES = "unique-column-names-on-multiindex-columns"
+K_PL_NODTYPE_DEFAULT = "polars-default-on-column-without-dtype"
 
 
 def _fields(d):
@@ -229,6 +237,44 @@ def absent_declared(d):
 def mi_columns(d):
     labs = _labels(d)
     return bool(labs) and all(isinstance(x, tuple) for x in labs)
+
+
+def partial_keys(d):
+    """Non-regex schema keys that only *partially* index the MultiIndex
+    columns of the data (a scalar, or a tuple shorter than the number of
+    levels, equal to the leading part of some column label)."""
+    if not mi_columns(d):
+        return []
+    labs = _labels(d)
+    out = []
+    for f in _fields(d):
+        if f.get("regex"):
+            continue
+        k = dec_key(f)
+        kt = k if isinstance(k, tuple) else (k,)
+        if any(len(kt) < len(lab) and lab[:len(kt)] == kt for lab in labs):
+            out.append(k)
+    return out
+
+
+def dec_key(f):
+    return G6.dec_label(f.get("key", f["name"]))
+
+
+def regex_name_shape_mismatch(d):
+    """A regex column whose name is a string while the data has MultiIndex
+    columns, or a tuple whose length differs from the number of levels."""
+    labs = _labels(d)
+    for f in _fields(d):
+        if not f.get("regex"):
+            continue
+        k = dec_key(f)
+        if not isinstance(k, tuple) and mi_columns(d):
+            return True
+        if isinstance(k, tuple) and labs and not all(
+                isinstance(lab, tuple) and len(lab) == len(k) for lab in labs):
+            return True
+    return False
 
 
 def has_unhashable(d):
@@ -292,8 +338,19 @@ def classify_leak(d, o):
     if (polars and name == "AttributeError" and call.get("sample")
             and last == "backends/polars/base.py:subsample"):
         return K_PL_SAMPLE
-    if polars and name == "ShapeError" and mod.startswith("polars") and any_drop(d):
+    if (polars and name == "ShapeError" and mod.startswith("polars") and any_drop(d)
+            and (last == "backends/polars/base.py:drop_invalid_rows"
+                 or (msg.startswith("filter's length")
+                     and any(call.get(k) for k in ("head", "tail", "sample"))))):
+        # check outputs of different heights (a check that does not return
+        # one boolean per row, or rows validated on a head/tail/sample subset)
+        # are combined into one row filter
         return K_PL_DROP_SHAPE
+    if (polars and name == "AttributeError"
+            and last == "backends/polars/components.py:set_default"
+            and any(f["dtype"] is None and f.get("default") is not None
+                    for f in fields)):
+        return K_PL_NODTYPE_DEFAULT
     if (name in ("ValueError", "ComputeError") and sp.get("unique")
             and not sp.get("add_missing_columns")
             and last.endswith(":check_column_values_are_unique")):
@@ -320,32 +377,23 @@ def classify_leak(d, o):
             and ("backends/polars/components.py:set_default" in fr
                  or "supertype" in msg or "'literal'" in msg)):
         return K_PL_DEFAULT_TYPE
-    schema_only = call.get("depth") == "SCHEMA_ONLY" or (
-        call.get("lazyframe") and not call.get("depth"))
-    if (polars and mod.startswith("polars") and schema_only and any_coerce(d)
-            and name in ("InvalidOperationError", "ComputeError")
-            and last in ("api/polars/container.py:validate",
-                         "backends/polars/base.py:subsample")):
-        return K_PL_SCHEMA_ONLY
     if (pandas and name == "TypeError" and "Invalid value" in msg
             and last.endswith((":set_defaults", ":set_default"))
             and any(f.get("default") is not None for f in fields)):
         return K_PD_DEFAULT_TYPE
-    if (name in ("ValueError", "ShapeError")
-            and ("larger sample than" in msg
-                 or "must be greater than 0 unless no samples" in msg)
-            and (any_drop(d) or sp.get("strict") == "filter") and call.get("sample")
+    if (pandas and name == "ValueError" and "larger sample than" in msg
+            and sp["kind"] == "series" and sp.get("index") and any_drop(d)
+            and call.get("sample")
             and call["sample"] <= len((d["table"]["columns"] or [{"values": []}])[0]["values"])
-            and last.endswith("/base.py:subsample")):
-        # the caller's sample size fits the frame he passed; validation itself
-        # (dropped rows / all columns filtered out) shrank the population
+            and "api/pandas/array.py:validate" in fr
+            and last == "backends/pandas/base.py:subsample"):
+        # the caller's sample size fits the series he passed; drop_invalid_rows
+        # shrank it before the index was validated with the same sample size
         return K_DROP_SAMPLE
-    if (pandas and name == "IndexError" and mi_columns(d)
-            and last == "backends/pandas/components.py:get_regex_columns"
-            and any(f.get("regex") for f in fields)):
-        return K_REGEX_MI
-    if (name == "TypeError" and "unhashable" in msg and has_unhashable(d)
-            and (sp.get("unique") or any(f.get("unique") for f in fields))):
+    if (pandas and name == "TypeError" and "unhashable" in msg and has_unhashable(d)
+            and (sp.get("unique") or any(f.get("unique") for f in fields))
+            and last in ("backends/pandas/array.py:check_unique",
+                         "backends/pandas/container.py:check_column_values_are_unique")):
         return K_UNHASHABLE
     if (pandas and name == "TypeError" and "'NoneType' object is not subscriptable" in msg
             and any(f.get("drop_invalid_rows") for f in fields)
@@ -361,9 +409,50 @@ def classify_leak(d, o):
             and name in ("BackendNotFoundError", "ValueError")
             and any(f.endswith(":coerce_dtype") for f in fr)):
         return K_MI_SCHEMA
-    if (pandas and mi_columns(d)
-            and name in ("KeyError", "TypeError", "ValueError", "IndexError")):
-        return K_MI_COLS
+    if (pandas and name == "TypeError" and sp.get("unique_column_names")
+            and last == "backends/pandas/container.py:check_column_names_are_unique"):
+        return K_UNIQUE_COLNAMES
+    if pandas and partial_keys(d) and last.startswith("backends/pandas/"):
+        pk = {repr(k) for k in partial_keys(d)}
+        if name == "KeyError" and e.args:
+            a = e.args[0]
+            missing = list(a) if hasattr(a, "__iter__") and not isinstance(
+                a, (str, tuple)) else [a]
+            if missing and all(repr(m) in pk for m in missing):
+                return K_MI_COLS
+        if (name == "ValueError" and "cannot reindex on an axis with duplicate labels" in msg
+                and last in ("backends/pandas/container.py:_coerce_dtype_helper",
+                             "backends/pandas/container.py:set_defaults")):
+            # the partial key selects several (repeated) columns at once
+            return K_MI_COLS
+    return None
+
+
+def not_judged(d, o):
+    """Regions where an exception outside the statement's list is documented /
+    pinned behaviour, so the statement does not decide them."""
+    e = o.exc
+    fr = frames_of(e)
+    last = fr[-1] if fr else ""
+    name = type(e).__name__
+    mod = type(e).__module__ or ""
+    call = d["call"]
+    if (d["backend"] == "pandas" and name == "IndexError"
+            and last == "backends/pandas/components.py:get_regex_columns"
+            and regex_name_shape_mismatch(d)):
+        # deliberate usage error with an explanatory message; pinned by
+        # tests/core/test_schema_components.py (test_column_regex*)
+        return "regex-name-shape-vs-columns-nlevels-IndexError(pinned-by-tests)"
+    schema_only = call.get("depth") == "SCHEMA_ONLY" or (
+        call.get("lazyframe") and not call.get("depth"))
+    if (d["backend"] == "polars" and mod.startswith("polars") and schema_only
+            and any_coerce(d) and name in ("InvalidOperationError", "ComputeError")
+            and last in ("api/polars/container.py:validate",
+                         "backends/polars/base.py:subsample")):
+        # docs/source/polars.md: without data-level validation coercion is a
+        # lazy cast "done without .collect()"; a cast that cannot succeed
+        # surfaces as a polars error wherever the plan is materialised
+        return "polars-schema-only-lazy-cast-fails-when-materialised"
     return None
 
 
@@ -401,6 +490,11 @@ def channel(run, d, o, part, injected=None, inj_kind=None):
         # KeyboardInterrupt etc. are not pandera's; pyo3 PanicException is
         if type(e).__name__ not in ("PanicException",):
             raise e
+    if o.is_frame and not (injected is not None and e is injected):
+        region = not_judged(d, o)
+        if region:
+            run.count("undecided:" + region)
+            return True
     w = witness(d, o) | {"exception": repr(e)[:300], "site": site(e),
                          "pandera_frames": frames_of(e)[-6:],
                          "part": part, "non_dataframe_argument": not o.is_frame}
